@@ -198,6 +198,9 @@ def run_fault_case(prog, params):
                 ld, lo = compare_tree(sr, u, lsnap, ltree, prefix=prefix)
                 for dv, kind, detail in ld:
                     findings.append(make_finding('C20', key + '|lower_layer_changed', 'lower layer changed under a fault: %s %s' % (dv, detail), sr))
+            ex.stats.asserts += 1       # the oracle of this (operation, target, failing call) run, decided on the path's values
+            if not findings:
+                ex.stats.discharged += 1
             if not res.samples:
                 res.samples.append({'config': config, 'state': cfg_str(state) if config == 'ovl' else shape_str(state), 'call': line,
                                     'failing_underlying_call': '%s #%d' % arm, 'outcome': out})
